@@ -389,8 +389,9 @@ impl QosPolicies {
 
     // check Ownership:
     // offered kind == requested kind
+    // (The strength of Exclusive ownership is not part of the comparison.)
     if let (Some(off), Some(req)) = (self.ownership, other.ownership) {
-      if off != req {
+      if std::mem::discriminant(&off) != std::mem::discriminant(&req) {
         return Some(QosPolicyId::Ownership);
       }
     }
@@ -401,8 +402,9 @@ impl QosPolicies {
     // AND offered lease_duration <= requested lease_duration
     //
     // See Ord implementation on Liveliness.
+    // Both conditions must hold, so this cannot be expressed as a single (total) order.
     if let (Some(off), Some(req)) = (self.liveliness, other.liveliness) {
-      if off < req {
+      if off.kind_num() < req.kind_num() || off.duration() > req.duration() {
         return Some(QosPolicyId::Liveliness);
       }
     }
@@ -783,7 +785,7 @@ pub mod policy {
   }
 
   impl Liveliness {
-    fn kind_num(&self) -> i32 {
+    pub(crate) fn kind_num(&self) -> i32 {
       match self {
         Self::Automatic { .. } => 0,
         Self::ManualByParticipant { .. } => 1,
@@ -804,7 +806,7 @@ pub mod policy {
     fn cmp(&self, other: &Self) -> Ordering {
       // Manual liveliness is greater than automatic, but
       // duration compares in reverse
-      other
+      self
         .kind_num()
         .cmp(&other.kind_num())
         .then_with(|| self.duration().cmp(&other.duration()).reverse())
